@@ -218,13 +218,15 @@ class PosInterp:
             self.block(stmts_no_doc(fn.node.body), env)
         except _Return as r:
             if is_gen:
-                return self._yields.pop()
+                return _It(self._yields.pop())
             return r.v
         if is_gen:
-            return self._yields.pop()
+            return _It(self._yields.pop())
         return None
 
     def call_value(self, f: Any, args: list, kwargs: dict, node: ast.AST) -> Any:
+        if isinstance(f, _PyFn):
+            return f.fn(*args)
         if type(f).__name__ in ('builtin_function_or_method', 'builtin_method', 'method', 'method-wrapper') and (isinstance(getattr(f, '__self__', None), str) or type(getattr(f, '__self__', None)).__name__ in ('Decimal', 'Pattern', 'Match')):
             try:
                 return f(*args, **kwargs)
@@ -315,13 +317,21 @@ class PosInterp:
                 return slice(*args)
             if n == 'enumerate':
                 return [(i, x) for i, x in enumerate(self.iter_of(args[0], node), *args[1:])]
+            if n == 'iter' and args and isinstance(args[0], _It):
+                return args[0]
             if n in ('list', 'tuple', 'iter'):
                 r_ = self.iter_of(args[0], node) if args else []
-                return tuple(r_) if n == 'tuple' else r_
+                return tuple(r_) if n == 'tuple' else _It(r_) if n == 'iter' else r_
             if n == 'reversed':
                 return list(reversed(self.iter_of(args[0], node)))
             if n == 'zip':
                 return [tuple(x) for x in zip(*[self.iter_of(a, node) for a in args])]
+            if n == 'next' and isinstance(args[0], _It):
+                if args[0]:
+                    return args[0].pop(0)
+                if len(args) > 1:
+                    return args[1]
+                raise Raised('StopIteration')
             if n == 'next':
                 seq = self.iter_of(args[0], node)
                 if seq:
@@ -391,6 +401,20 @@ class PosInterp:
                 if isinstance(v, Obj):
                     return Obj(v.cls, dict(v.f), v.label)
                 raise self.err(node, 'copy.copy')
+            if n == 'copy.deepcopy':
+                def deep(v: Any, depth: int = 0) -> Any:
+                    if isinstance(v, Obj):
+                        return Obj(v.cls, {k: (deep(x, depth + 1) if isinstance(x, (list, tuple, dict)) else x) for k, x in v.f.items()}, f'copy of {v.label}')
+                    if isinstance(v, list):
+                        return [deep(x, depth + 1) for x in v]
+                    if isinstance(v, tuple):
+                        return tuple(deep(x, depth + 1) for x in v)
+                    if isinstance(v, dict):
+                        return {k: deep(x, depth + 1) for k, x in v.items()}
+                    if v is None or isinstance(v, (bool, int, str, StrSym, Lin)):
+                        return v
+                    raise self.err(node, f'copy.deepcopy of {v!r}')
+                return deep(args[0])
             if n == 'list.append':
                 kwargs['self'].append(args[0])
                 return None
@@ -480,8 +504,11 @@ class PosInterp:
                     continue
             self.block(st.orelse, env)
         elif isinstance(st, ast.For):
-            it = self.iter_of(self.expr(st.iter, env), st)
+            src_ = self.expr(st.iter, env)
+            it = self.iter_of(src_, st)
             for x in list(it):
+                if isinstance(src_, _It) and src_:
+                    src_.pop(0)                     # a for loop over an iterator consumes what it visits
                 self.assign(st.target, x, env)
                 try:
                     self.block(st.body, env)
@@ -659,6 +686,8 @@ class PosInterp:
                 return self.call_function(m, [a, b], {})
             if isinstance(a, list) and isinstance(b, list):
                 return a + b
+            if (isinstance(a, str) and isinstance(b, str)) or (isinstance(a, tuple) and isinstance(b, tuple)):
+                return a + b                  # concrete texts / tuples
             return add(a, b)
         if isinstance(op, ast.Sub):
             return add(a, b, -1)
@@ -724,7 +753,7 @@ class PosInterp:
                     return self.expr(st.value, {})          # module constant (_LOAD_FACTOR and friends)
             raise self.err(e, 'name')
         if isinstance(e, ast.Attribute):
-            if norm(e) in ('copy.copy', 'itertools.accumulate', 'itertools.chain', 'itertools.count', 'itertools.groupby', 'functools.reduce',
+            if norm(e) in ('copy.copy', 'copy.deepcopy', 'itertools.accumulate', 'itertools.chain', 'itertools.count', 'itertools.groupby', 'functools.reduce',
                            'operator.attrgetter', 'operator.itemgetter', 'operator.imul', 'operator.mul', 'operator.itruediv', 'operator.truediv',
                            'operator.neg', 'operator.pos',
                            'operator.iadd', 'operator.add', 'operator.isub', 'operator.sub'):
@@ -748,8 +777,14 @@ class PosInterp:
             if type(base).__name__ == 'Match' and e.attr in ('group', 'groups', 'start', 'end', 'span', 'groupdict', 'lastindex'):
                 return getattr(base, e.attr)
             if type(base).__name__ == 'Decimal' and e.attr in ('as_tuple', 'normalize', 'copy_abs', 'copy_negate', 'is_zero', 'is_signed', 'adjusted',
-                                                                  'quantize', 'to_integral_value', 'is_finite', 'is_nan'):
+                                                                  'quantize', 'to_integral_value', 'is_finite', 'is_nan', 'is_normal', 'is_subnormal', 'is_infinite', 'is_qnan',
+                                                                  'is_snan', 'is_canonical', 'copy_sign', 'compare', 'compare_total', 'same_quantum', 'to_integral',
+                                                                  'to_integral_exact', 'scaleb', 'number_class', 'canonical', 'sqrt', 'max', 'min'):
                 return getattr(base, e.attr)          # a method of a concrete decimal: pure
+            if type(base).__name__ == 'Fraction' and e.attr in ('copy_negate', 'copy_abs', 'is_zero', 'is_signed', 'is_finite', 'is_nan', 'normalize'):
+                # a rational stand-in for a decimal value: the exact (non-rounding) methods of Decimal
+                return _PyFn({'copy_negate': lambda: -base, 'copy_abs': lambda: abs(base), 'is_zero': lambda: base == 0, 'is_signed': lambda: base < 0,
+                              'is_finite': lambda: True, 'is_nan': lambda: False, 'normalize': lambda: base}[e.attr])
             if type(base).__name__ == 'DecimalTuple' and e.attr in ('sign', 'digits', 'exponent'):
                 return getattr(base, e.attr)
             if isinstance(base, str) and e.attr in ('strip', 'lstrip', 'rstrip', 'startswith', 'endswith', 'removeprefix', 'removesuffix', 'split',
@@ -922,6 +957,17 @@ class PosInterp:
 class _Lambda:
     def __init__(self, node: ast.Lambda, env: dict) -> None:
         self.node, self.env = node, env
+
+
+class _PyFn:
+    """a pure helper of the interpreter itself (methods of the rational stand-ins for decimals)"""
+    def __init__(self, fn: Any) -> None:
+        self.fn = fn
+
+
+class _It(list):
+    """an iterator (the result of a generator function or of iter()): next() consumes it, a for loop consumes what it visits"""
+    __slots__ = ()
 
 
 class _Counter:
@@ -1570,3 +1616,155 @@ def rule_from_tokens_sem(ctx: RuleContext, ts: TS, rid: str) -> None:
         pass
     ctx.check(not problem, rid, 'token_store:TokenStore.from_tokens', 'fresh consistent store', f'TokenStore.from_tokens: {problem}', f.where,
               note='lengths around the load factor; attached token refused')
+
+
+# ====================================================================== NAV-LAYOUT (added after seeded round 6)
+def _compositions(n: int, max_part: int = 4) -> list[list[int]]:
+    if n == 0:
+        return [[0]]
+    out: list[list[int]] = []
+
+    def rec(rest: int, cur: list[int]) -> None:
+        if rest == 0:
+            out.append(list(cur))
+            return
+        for k in range(1, min(rest, max_part) + 1):
+            cur.append(k)
+            rec(rest - k, cur)
+            cur.pop()
+    rec(n, [])
+    return out
+
+
+def layout_store(ts: TS, layout: list[int]) -> tuple[Obj, list[Obj]]:
+    """a consistent abstract store whose blocks hold `layout` plain tokens each; returns (store, flat token list)"""
+    store = new_store(ts, sum(layout))
+    flat: list[Obj] = []
+    for bi, k in enumerate(layout):
+        b = mk_block(store, bi, 'P' * k, f'b{bi}_')
+        store.f['_blocks'].append(b)
+        flat.extend(b.f['tokens'])
+    return store, flat
+
+
+def _flat_of(store: Obj) -> list[Obj]:
+    return [t for b in store.f['_blocks'] for t in b.f['tokens']]
+
+
+def store_query(ts: TS, name: str, layout: list[int], args: list, interp_cls: Any = None) -> tuple[Any, bool]:
+    """interpret TokenStore.<name> on a fresh store with the given block layout.  `args`: ('tok', flat index) | None | plain values.
+    Returns (answer with tokens written as ('tok', flat index), whether the flat sequence of the store changed)."""
+    fn = ts.funcs.get(f'TokenStore.{name}')
+    if fn is None:
+        raise AnalysisError(f'TokenStore.{name} does not exist')
+    store, flat = layout_store(ts, layout)
+    before = [id(t) for t in flat]
+    pos = {id(t): i for i, t in enumerate(flat)}
+
+    def enc(v: Any, depth: int = 0) -> Any:
+        if isinstance(v, Obj):
+            if id(v) in pos:
+                return ('tok', pos[id(v)])
+            return ('obj', v.cls)
+        if isinstance(v, (list, tuple)) and depth < 3:
+            return [enc(x, depth + 1) for x in v]
+        if v is None or isinstance(v, (bool, int, str)):
+            return v
+        return ('value', type(v).__name__)
+
+    real = [flat[a[1]] if isinstance(a, tuple) and a and a[0] == 'tok' else a for a in args]
+    it = (interp_cls or PosInterp)(ts, [])
+    try:
+        res = enc(it.call_function(fn, [store, *real], {}))
+    except Raised as ex:
+        res = ('raises', str(ex).split(':')[0].split('(')[0])
+    except (IndexError, KeyError) as ex:
+        res = ('raises', type(ex).__name__)
+    changed = [id(t) for t in _flat_of(store)] != before
+    return res, changed
+
+
+_NAV_KNOWN = {'get_first', 'get_last', '__len__', '__iter__', 'get_next', 'get_prev', 'get_index', 'iter', 'insert_after', 'insert_before',
+              'splice', 'remove', 'replace', 'update', 'get_position', 'from_tokens', '__init__'}
+
+
+def _param_domain(ann: str, n: int) -> Optional[list]:
+    a = ann.replace(' ', '')
+    toks: list = [('tok', i) for i in range(n)]
+    if a in ('_T', 'Token', 'base.RawTokenModel'):
+        return toks
+    if a in ('Optional[_T]', '_T|None', 'None|_T', 'Optional[Token]'):
+        return toks + [None]
+    if a == 'int':
+        return list(range(-n - 1, n + 2))
+    if a == 'bool':
+        return [False, True]
+    return None
+
+
+def rule_nav_layout(ctx: RuleContext, ts: TS, rid: str, max_len: int = 4) -> None:
+    import itertools
+    ctx.rule(rid, 'block layout is invisible: every public method of TokenStore that the other navigation rules do not name (a new iterator, a '
+                  'new lookup), interpreted for every argument tuple (tokens, None, small integers, by parameter annotation) on every way of '
+                  'cutting the same flat sequence of 0..%d tokens into blocks, gives one answer per (sequence, arguments) -- a plain list has no '
+                  'blocks, so an answer that depends on where the block boundaries fall is not an answer about the sequence.  Methods that '
+                  'change the sequence are left to the mutation rules' % max_len)
+    extra = sorted(q.split('.', 1)[1] for q, f in ts.funcs.items() if q.startswith('TokenStore.') and f.cls is ts.store
+                   and not q.split('.', 1)[1].startswith('_') and q.split('.', 1)[1] not in _NAV_KNOWN and f.kind in ('method', 'getter'))
+    ctx.stats['nav_layout_methods'] = extra
+    calls = 0
+    for name in extra:
+        fn = ts.funcs[f'TokenStore.{name}']
+        a = fn.node.args
+        plist = [*a.posonlyargs, *a.args][1:]
+        site = f'token_store:TokenStore.{name}'
+        where = f'{ts.m.relpath}:{fn.node.lineno}'
+        if a.vararg or a.kwarg or a.kwonlyargs:
+            ctx.not_decided.append(f'NAV-LAYOUT: TokenStore.{name} takes */** arguments; not driven')
+            continue
+        problem = None
+        mutator = False
+        undriven = None
+        for n in range(0, max_len + 1):
+            doms = []
+            for q in plist:
+                d = _param_domain(norm(q.annotation) if q.annotation is not None else '', n)
+                if d is None:
+                    undriven = q.arg
+                    break
+                doms.append(d)
+            if undriven:
+                break
+            for args in itertools.product(*doms):
+                answers: dict[str, Any] = {}
+                for lay in _compositions(n):
+                    res, changed = store_query(ts, name, lay, list(args))
+                    calls += 1
+                    if changed:
+                        mutator = True
+                        break
+                    answers[str(lay)] = res
+                if mutator:
+                    break
+                kinds = {repr(v) for v in answers.values()}
+                if len(kinds) > 1 and problem is None:
+                    items = sorted(answers.items(), key=lambda kv: (repr(kv[1]), kv[0]))
+                    a0 = items[0]
+                    b0 = next(x for x in items if repr(x[1]) != repr(a0[1]))
+                    problem = (f'{name}({", ".join(f"token {x[1]}" if isinstance(x, tuple) else repr(x) for x in args)}) on a sequence of {n} tokens answers '
+                               f'{a0[1]!r} when the blocks hold {a0[0]} tokens and {b0[1]!r} when they hold {b0[0]}')
+            if mutator:
+                break
+        if undriven:
+            ctx.not_decided.append(f'NAV-LAYOUT: parameter {undriven} of TokenStore.{name} has an annotation this rule cannot drive')
+            continue
+        if mutator:
+            ctx.not_decided.append(f'NAV-LAYOUT: TokenStore.{name} changes the sequence; left to the mutation rules')
+            continue
+        ctx.check(problem is None, rid, site, 'same answer for every block layout',
+                  f'TokenStore.{name}: {problem}: the answer depends on where the block boundaries fall, which a plain ordered sequence does not have',
+                  where, note='every layout of 0..%d tokens' % max_len)
+    # the rule has nothing to say about a store without such methods; a control keeps the machinery honest: get_next is layout-independent
+    ctl = {repr(store_query(ts, 'get_next', lay, [('tok', 1)])[0]) for lay in _compositions(3)}
+    ctx.check(ctl == {repr(('tok', 2))}, rid, 'token_store:TokenStore.get_next (control)', 'same answer for every block layout',
+              f'control: get_next(token 1) of 3 tokens answers {sorted(ctl)} over the layouts', f'{ts.m.relpath}', note='control instance')
